@@ -179,7 +179,7 @@ theorem update_next (l : Lc) (id : Nat) (m : Msg) (hc : m.ctrlReq = false) (hts 
   cases r with
   | false => exact ⟨(Lc.new id m).1, rfl, n5, n1, n2, n3, n4⟩
   | true =>
-    refine ⟨{ (Lc.new id m).1 with resume := some { id := l.id, start := l.start, maxTs := l.maxTs } }, rfl, n5, n1, n2, n3, n4⟩
+    refine ⟨{ (Lc.new id m).1 with resume := some { id := l.id, start := l.start, maxTs := l.maxTs, eff := l.resumeStart } }, rfl, n5, n1, n2, n3, n4⟩
 
 theorem chain_head_same (r r' : Rec) (t : List Rec) (h : Chain (r :: t)) (hs : r'.start = r.start) : Chain (r' :: t) := by
   cases t with
